@@ -173,10 +173,10 @@ func TestVF_C06_Manager(t *testing.T) {
 // ---------------------------------------------------------------------------------------------------------------
 // (b) world level
 
-var vfC06Chans = []string{"pa", "pb", "pc"}
+var vfC06Chans = []string{"pa", "pb", "pc", "pd", "pe", "pf"}
 
 type vfC06Step struct {
-	Kind       int // 0 subscribe, 1 unsubscribe, 2 close, 3 park tick, 4 release, 5 advance
+	Kind       int // 0 subscribe, 1 unsubscribe, 2 close, 3 park tick, 4 release, 5 advance, 6 release to the tick's next add
 	Conn       int
 	Ch         int
 	Mode       int  // subscribe: 0 client command, 1 Client.Subscribe; unsubscribe: 0 command, 1 Client.Unsubscribe, 2 Node.Unsubscribe
@@ -184,6 +184,8 @@ type vfC06Step struct {
 	RmGate     bool // release: park the tick's compensating RemovePresence as well
 	OnParked   bool // run on the connection whose tick is parked (when there is one), else on Conn
 	PickRm     bool // subscribe: target a channel whose compensating remove is parked (when there is one)
+	Multi      bool // park tick: keep the add gates of the other channels armed so the SAME tick parks again later
+	PickOther  bool // unsubscribe: target a subscribed channel whose add is NOT parked right now
 	Adv        int
 }
 
@@ -192,13 +194,15 @@ func (s vfC06Step) String() string {
 	case 0:
 		return fmt.Sprintf("sub(c%d %s mode=%d onParked=%v pickRm=%v)", s.Conn, vfC06Chans[s.Ch], s.Mode, s.OnParked, s.PickRm)
 	case 1:
-		return fmt.Sprintf("unsub(c%d %s mode=%d onParked=%v pickParked=%v)", s.Conn, vfC06Chans[s.Ch], s.Mode, s.OnParked, s.PickParked)
+		return fmt.Sprintf("unsub(c%d %s mode=%d onParked=%v pickParked=%v pickOther=%v)", s.Conn, vfC06Chans[s.Ch], s.Mode, s.OnParked, s.PickParked, s.PickOther)
 	case 2:
 		return fmt.Sprintf("close(c%d mode=%d onParked=%v)", s.Conn, s.Mode, s.OnParked)
 	case 3:
-		return fmt.Sprintf("parkTick(c%d)", s.Conn)
+		return fmt.Sprintf("parkTick(c%d multi=%v)", s.Conn, s.Multi)
 	case 4:
 		return fmt.Sprintf("release(rmGate=%v)", s.RmGate)
+	case 6:
+		return "releaseToNextAdd"
 	}
 	return fmt.Sprintf("adv(%ds)", s.Adv)
 }
@@ -225,7 +229,7 @@ func vfC06Gen(rt *rapid.T) vfC06Case {
 		c.Users = append(c.Users, rapid.IntRange(0, 1).Draw(rt, "user"))
 	}
 	conn := func() int { return rapid.IntRange(0, nc-1).Draw(rt, "conn") }
-	chn := func() int { return rapid.IntRange(0, 2).Draw(rt, "ch") }
+	chn := func() int { return rapid.IntRange(0, 2).Draw(rt, "ch") } // the general schedule stays on pa/pb/pc
 	free := func() vfC06Step {
 		k := rapid.SampledFrom([]int{0, 0, 1, 1, 2, 5}).Draw(rt, "kind")
 		s := vfC06Step{Kind: k, Conn: conn(), Ch: chn()}
@@ -251,8 +255,34 @@ func vfC06Gen(rt *rapid.T) vfC06Case {
 		for n := rapid.IntRange(0, 2).Draw(rt, "noise"); n > 0; n-- {
 			c.Steps = append(c.Steps, free())
 		}
+		variant := rapid.SampledFrom([]int{0, 0, 3, 3, 1, 1, 2}).Draw(rt, "variant")
+		if variant == 3 {
+			// the same tick parks several times: 4-6 channels, park at the first add, unsubscribe 1-3 OTHER channels
+			// completely, let the tick run to its next add, unsubscribe THAT channel (or close), release
+			x := conn()
+			nch := rapid.IntRange(4, 6).Draw(rt, "multiChans")
+			for k := 0; k < nch; k++ {
+				c.Steps = append(c.Steps, vfC06Step{Kind: 0, Conn: x, Ch: k, Mode: rapid.IntRange(0, 1).Draw(rt, "mode")})
+			}
+			c.Steps = append(c.Steps, vfC06Step{Kind: 3, Conn: x, Multi: true})
+			for n := rapid.IntRange(1, 3).Draw(rt, "nOther"); n > 0; n-- {
+				c.Steps = append(c.Steps, vfC06Step{Kind: 1, OnParked: true, PickOther: true, Ch: rapid.IntRange(0, 5).Draw(rt, "och"), Mode: rapid.IntRange(0, 2).Draw(rt, "mode")})
+			}
+			c.Steps = append(c.Steps, vfC06Step{Kind: 6})
+			if rapid.IntRange(0, 4).Draw(rt, "closeAtSecond") == 0 {
+				c.Steps = append(c.Steps, vfC06Step{Kind: 2, OnParked: true, Mode: rapid.IntRange(0, 1).Draw(rt, "mode")})
+			} else {
+				c.Steps = append(c.Steps, vfC06Step{Kind: 1, OnParked: true, PickParked: true, Ch: chn(), Mode: rapid.IntRange(0, 2).Draw(rt, "mode")})
+				if rapid.Bool().Draw(rt, "again") {
+					c.Steps = append(c.Steps, vfC06Step{Kind: 6})
+					c.Steps = append(c.Steps, vfC06Step{Kind: 1, OnParked: true, PickParked: true, Ch: chn(), Mode: rapid.IntRange(0, 2).Draw(rt, "mode")})
+				}
+			}
+			c.Steps = append(c.Steps, vfC06Step{Kind: 4})
+			continue
+		}
 		c.Steps = append(c.Steps, vfC06Step{Kind: 3, Conn: conn()})
-		switch rapid.SampledFrom([]int{0, 0, 0, 1, 1, 2}).Draw(rt, "variant") {
+		switch variant {
 		case 0: // a few operations (mostly on the parked connection), then release
 			for n := rapid.IntRange(1, 3).Draw(rt, "nin"); n > 0; n-- {
 				s := free()
@@ -350,6 +380,8 @@ func vfC06Run(t *testing.T, cs vfC06Case, out *vfC06Out, isKnown func(string) bo
 		stage := 0 // 1 = adds parked, 2 = compensating removes parked
 		var parkedAdds []string
 		var rmArmed []string
+		keepArmed := map[string]bool{} // multi-park: add gates (by channel) of the parked connection that are still armed
+		secondParkOverlap := false
 		unsubDuringPark := map[string]bool{} // channels of parkedConn unsubscribed while its tick was parked
 		resubDuringRm := map[string]bool{}   // channels of parkedConn re-subscribed while the compensating remove was parked
 		overlapped := false
@@ -383,6 +415,7 @@ func vfC06Run(t *testing.T, cs vfC06Case, out *vfC06Out, isKnown func(string) bo
 			}
 			resubDuringRm = map[string]bool{}
 			parkedConn, stage, parkedAdds, rmArmed = -1, 0, nil, nil
+			keepArmed = map[string]bool{}
 		}
 
 		check := func(where string) string {
@@ -483,6 +516,9 @@ func vfC06Run(t *testing.T, cs vfC06Case, out *vfC06Out, isKnown func(string) bo
 				if !open[ci] || model[ci][ch] {
 					continue
 				}
+				if ci == parkedConn && keepArmed[ch] {
+					continue // its add gate is still armed for the tick: the subscribe's own AddPresence would park the caller
+				}
 				ok := false
 				if s.Mode == 0 {
 					id := conn.NextID()
@@ -520,6 +556,24 @@ func vfC06Run(t *testing.T, cs vfC06Case, out *vfC06Out, isKnown func(string) bo
 				if s.PickParked && ci == parkedConn && len(parkedAdds) > 0 && stage == 1 {
 					ch = parkedAdds[0]
 				}
+				if s.PickOther && ci == parkedConn && stage == 1 {
+					var cands []string
+					for _, c := range subscribedChans(ci) {
+						isParked := false
+						for _, pch := range parkedAdds {
+							if pch == c {
+								isParked = true
+							}
+						}
+						if !isParked {
+							cands = append(cands, c)
+						}
+					}
+					if len(cands) == 0 {
+						continue
+					}
+					ch = cands[s.Ch%len(cands)]
+				}
 				if ci == parkedConn && stage == 2 {
 					// the rm gate of this connection is armed: an unsubscribe's own RemovePresence would park the
 					// caller; keep the schedule simple and leave this connection alone until released
@@ -540,6 +594,9 @@ func vfC06Run(t *testing.T, cs vfC06Case, out *vfC06Out, isKnown func(string) bo
 						if p == ch {
 							overlapped = true
 							out.labels = append(out.labels, "unsubscribe_overlaps_parked_add")
+							if secondParkOverlap {
+								out.labels = append(out.labels, "unsubscribe_overlaps_later_add_of_same_tick")
+							}
 						}
 					}
 				}
@@ -602,11 +659,14 @@ func vfC06Run(t *testing.T, cs vfC06Case, out *vfC06Out, isKnown func(string) bo
 				for _, c := range chs {
 					if w.Gates.Waiting(gateAdd(ci, c)) > 0 {
 						parkedAdds = append(parkedAdds, c)
+					} else if s.Multi {
+						keepArmed[c] = true
 					} else {
 						w.Gates.Disarm(gateAdd(ci, c))
 					}
 				}
 				sort.Strings(parkedAdds)
+				secondParkOverlap = false
 				parkedConn, stage = ci, 1
 				unsubDuringPark = map[string]bool{}
 				resubDuringRm = map[string]bool{}
@@ -642,6 +702,30 @@ func vfC06Run(t *testing.T, cs vfC06Case, out *vfC06Out, isKnown func(string) bo
 				}
 				releaseAll()
 				vfSettle()
+			case 6: // release only the parked adds; the tick runs on to its next (still armed) AddPresence and parks again
+				if parkedConn < 0 || stage != 1 {
+					continue
+				}
+				for _, c := range parkedAdds {
+					for w.Gates.Release(gateAdd(parkedConn, c)) {
+					}
+				}
+				vfSettle()
+				parkedAdds = nil
+				for _, c := range vfC06Chans {
+					if w.Gates.Waiting(gateAdd(parkedConn, c)) > 0 {
+						parkedAdds = append(parkedAdds, c)
+						delete(keepArmed, c)
+					}
+				}
+				sort.Strings(parkedAdds)
+				if len(parkedAdds) == 0 {
+					releaseAll() // the tick finished (nothing left to add)
+					vfSettle()
+					continue
+				}
+				secondParkOverlap = true
+				out.labels = append(out.labels, "same_tick_parked_again")
 			case 5:
 				time.Sleep(time.Duration(s.Adv) * time.Second)
 				vfSettle()
